@@ -957,8 +957,10 @@ def r_fold(text, ctx):
        and    `X.iter().for_each(|P| { BODY });`  ->  `for P in it: X.iter() { BODY }`.
     Closure desugaring only; refuses bodies containing return / ? / break / continue."""
     n = 0
+    # a receiver chain broken over several lines (`create\n.foreign_key\n.ref_columns\n.iter()\n.fold(`) is one expression
+    text = re.sub(r"((?:[A-Za-z_#][A-Za-z0-9_#]*\s*\.\s*)+)iter\(\)\s*\.\s*(fold|for_each)\(", lambda mm: re.sub(r"\s+", "", mm.group(1)) + "iter()." + mm.group(2) + "(", text)
     while True:
-        m = re.search(r"([A-Za-z_][A-Za-z0-9_\.#]*)\.iter\(\)\.(fold\(true, \|(first), ([a-z_]+)\| \{|for_each\(\|([^|]+)\| \{)", text)
+        m = re.search(r"([A-Za-z_][A-Za-z0-9_\.#]*)\s*\.iter\(\)\s*\.(fold\((?:true|first), \|(first), ([a-z_]+)\| \{|for_each\(\|([^|]+)\| \{)", text)
         if not m:
             break
         coll = m.group(1)
@@ -978,10 +980,25 @@ def r_fold(text, ctx):
         itn = "it%d" % n
         if is_fold:
             b2 = body.rstrip()
-            if not b2.endswith("false"):
-                raise Unsupported(ctx.key + ": R-fold: fold closure does not end in `false`")
+            # the closure's tail expression is the flag for the next item: `false`, or any bool expression (`first && ..`)
+            tk_ = rl.code_toks(rl.lex(b2))
+            depth_, cut_ = 0, 0
+            for i_, t_ in enumerate(tk_):
+                if t_.kind == "punct" and t_.text in rl.OPEN:
+                    depth_ += 1
+                elif t_.kind == "punct" and t_.text in rl.CLOSE:
+                    depth_ -= 1
+                    if depth_ == 0 and t_.text == "}" and i_ + 1 < len(tk_) and tk_[i_ + 1].text not in (".", "?", "else", "&&", "||", "==", "!=", ";"):
+                        cut_ = t_.end
+                elif t_.kind == "punct" and t_.text == ";" and depth_ == 0:
+                    cut_ = t_.end
+            tailx = b2[cut_:].strip()
+            if not tailx:
+                raise Unsupported(ctx.key + ": R-fold: fold closure has no tail expression")
+            b2 = b2[:cut_]
             flag = "first"
-            inner = re.search(r"\.iter\(\)\.fold\(true, \|first,", b2)
+            init = "first" if re.search(r"fold\(first,", m.group(2)) else "true"   # `fold(first, |first, x|`: the flag starts from a variable named first (shadowed)
+            inner = re.search(r"\.iter\(\)\s*\.fold\((?:true|first), \|first,", b2)
             if inner:
                 # nested folds: the inner closure's `first` parameter shadows the outer one; the outer flag gets its own name
                 flag = "first_o"
@@ -990,11 +1007,14 @@ def r_fold(text, ctx):
                 tk = rl.code_toks(rl.lex(tail))
                 k0 = next(i for i, t in enumerate(tk) if t.text == "{")
                 after_inner = tail[tk[rl.match_close(tk, k0)].end:]
-                if len(re.findall(r"\bfirst\b", head)) != 1 or "!first" not in head or re.search(r"\bfirst\b", after_inner):
+                # occurrences of `first` in the head after a shadowing `let first = ..;` binding belong to that binding, not to the outer flag
+                shadow = re.search(r"\blet first\b", head)
+                head_outer = head[:shadow.start()] if shadow else head
+                if len(re.findall(r"\bfirst\b", head_outer)) != 1 or "!first" not in head_outer or re.search(r"\bfirst\b", after_inner) or tailx != "false":
                     raise Unsupported(ctx.key + ": R-fold: nested fold whose outer flag is used other than in the leading `if !first`")
                 b2 = re.sub(r"!first\b", "!first_o", head, count=1) + b2[inner.start():]
-            b2 = b2[:-5].rstrip() + "\n            %s = false;\n        " % flag
-            new = "let mut %s = true;\n        for %s in %s: %s.iter() {%s}" % (flag, var, itn, coll, b2)
+            b2 = b2.rstrip() + "\n            %s = %s;\n        " % (flag, tailx)
+            new = "let mut %s = %s;\n        for %s in %s: %s.iter() {%s}" % (flag, init, var, itn, coll, b2)
         else:
             new = "for %s in %s: %s.iter() {%s}" % (var.strip(), itn, coll, body)
         ctx.app("R-fold", rl.norm_ws(text[m.start():open_off + toks[close].end + m2.end()])[:120], rl.norm_ws(new)[:120])
